@@ -139,6 +139,8 @@ class Ref:
         if isinstance(v, RBlob): return ("blob", {k: self.snapshot(c.v, depth + 1) for k, c in v.fields.items() if not isinstance(c.v, (RClosure, RBuiltin))})
         if isinstance(v, RVariant): return ("variant", v.name, self.snapshot(v.payload, depth + 1))
         if isinstance(v, (RClosure, RBuiltin)): return ("fn",)
+        if type(v).__name__ == "RSet": return ("set", sorted(repr(self.snapshot(x, depth + 1)) for x in v.items))
+        if type(v).__name__ == "RDict": return ("dict", sorted(repr(("tuple", [self.snapshot(e[0], depth + 1), self.snapshot(e[1], depth + 1)])) for e in v.items))
         raise RefStuck("snapshot of %r" % (v,))
 
     # ------------------------------------------------------------------ equality / order / arithmetic
@@ -168,6 +170,11 @@ class Ref:
             if a.name != b.name: return False
             return self.equal(a.payload, b.payload)
         if isinstance(a, (RClosure, RBuiltin)) and isinstance(b, (RClosure, RBuiltin)): return a is b
+        if type(a).__name__ == "RSet" and type(b).__name__ == "RSet":          # std sets (stdmodel): same elements
+            if len(a.items) != len(b.items): return False
+            for x in a.items:
+                if not any(self.branch(self.equal(x, y)) for y in b.items): return False
+            return True
         raise RefStuck("== on %r and %r" % (type(a).__name__, type(b).__name__))
     @staticmethod
     def conj(cs):
